@@ -115,7 +115,7 @@ func checkGates(p *ana.Prog, r *ana.Result, rule string, fn *ssa.Function, start
 	target, stop func(ssa.Instruction) bool, targetName string, gates []gateSpec) {
 	fname := ana.FuncName(fn)
 	for _, g := range gates {
-		if len(g.gate.Accept) < g.min || len(g.gate.Accept) == 0 {
+		if (len(g.gate.Accept) < g.min || len(g.gate.Accept) == 0) && len(g.gate.PassThrough) == 0 {
 			r.Violate(rule, fname, "gate-missing:"+g.name, p.Pos(fn.Pos()),
 				fmt.Sprintf("acceptance test %q not found in %s (found %d test sites, need >= %d): the mechanism the property rests on is missing", g.name, fname, len(g.gate.Accept), max(g.min, 1)))
 			continue
